@@ -961,8 +961,9 @@ fn vp_native_redirect_across_no_proxy_boundary_body() {
     let proxy = serve(plog.clone(), move |line, _| {
         if line.contains("external.test/start") { resp(302, Some(&format!("http://127.0.0.1:{}/internal", oport)), "") }
         else if line.contains("external.test/ext") { resp(200, None, "ext") } else { resp(404, None, "") } });
-    let settings = crate::ProxySettings::builder().http_proxy(Url::parse(&format!("http://127.0.0.1:{}", proxy)).unwrap()).add_no_proxy_host("127.0.0.1").build();
-    let mut s = crate::Session::new(); s.proxy_settings(settings);
+    // (the proxy URL carries credentials: whatever the library does with them on the proxied hop, they are the proxy's, not the caller's)
+    let settings = crate::ProxySettings::builder().http_proxy(Url::parse(&format!("http://pu:pw@127.0.0.1:{}", proxy)).unwrap()).add_no_proxy_host("127.0.0.1").build();
+    let mut s = crate::Session::new(); s.proxy_settings(settings); s.header("X-Caller", "keep-me");
     // proxied host -> no_proxy host: second hop must go direct, origin-form, Host of the origin
     let r = s.get("http://external.test/start").send().unwrap();
     assert_eq!(r.text().unwrap(), "internal");
@@ -970,6 +971,9 @@ fn vp_native_redirect_across_no_proxy_boundary_body() {
     let (p, o) = (plog.lock().unwrap().clone(), olog.lock().unwrap().clone());
     assert_eq!(p.len(), 1, "only the first hop goes through the proxy: {:?}", p); assert_eq!(o.len(), 1);
     assert_eq!(o[0].first_line, "GET /internal HTTP/1.1"); assert_eq!(o[0].host.as_deref(), Some(&format!("127.0.0.1:{}", origin)[..]));
+    // the hop that goes direct carries the caller's fields and nothing that belonged to the proxied hop
+    assert!(o[0].head.to_ascii_lowercase().contains("x-caller: keep-me"), "the caller's field is missing on the direct hop: {:?}", o[0].head);
+    assert!(!o[0].head.to_ascii_lowercase().contains("proxy-authorization"), "the direct hop to the origin carries a Proxy-Authorization field the caller never set: {:?}", o[0].head);
     // no_proxy host -> proxied host: second hop must use the proxy, absolute-form
     settle(&plog, 0); settle(&olog, 0); plog.lock().unwrap().clear(); olog.lock().unwrap().clear();
     let r = s.get(format!("http://127.0.0.1:{}/to-ext", origin)).send().unwrap();
@@ -1129,7 +1133,7 @@ fn vp_native_connect_refusals_body() {
     let mut cases = 0u64;
     // reply shapes: (with Content-Length?, body length)
     let shapes: [(bool, usize); 6] = [(true, 0), (true, 10240), (true, 10241), (true, 20000), (false, 50), (false, 300_000)];
-    let origins = [("https://origin.test:8443/secret", "origin.test:8443"), ("https://ou:op@origin.test/secret?k=v#f", "origin.test:443"),
+    let origins = [("https://origin.test:8443/secret", "origin.test:8443"), ("https://ou:op@origin.test/secret?k=v#f", "origin.test:443"), ("https://[::1]/secret", "[::1]:443"), ("https://[2001:db8::1]:443/secret", "[2001:db8::1]:443"),
                    ("https://[::1]:444/x", "[::1]:444"), ("https://10.1.2.3/x", "10.1.2.3:443")];
     for (si, status) in [100u16, 199, 300, 302, 304, 400, 403, 407, 500, 503, 599].into_iter().enumerate() {
         let (with_cl, blen) = shapes[si % shapes.len()];
